@@ -5,6 +5,7 @@ go 1.13
 require (
 	github.com/gocql/gocql v0.0.0
 	github.com/gocql/gocql/lz4 v0.0.0
+	github.com/golang/snappy v0.0.3
 	github.com/pierrec/lz4/v4 v4.1.8
 	gopkg.in/inf.v0 v0.9.1
 )
